@@ -1,12 +1,86 @@
 import GridVerif.Model.Proto
 import GridVerif.Model.Elem
+import GridVerif.Model.Coulomb
+import GridVerif.Gen.Coulomb
+import GridVerif.Gen.CoulombParams
 
 namespace GridVerif.Driver.C17
-open GridVerif.Proto
+open GridVerif.Proto GridVerif.Coulomb GridVerif.Gen.Coulomb
+
+def pBool : String → Option Bool
+  | "0" => some false
+  | "1" => some true
+  | _ => none
+
+/-- rows of an `n × 3` matrix as points. -/
+def toP3 : List (List Float) → Option (List (P3 Float))
+  | [] => some []
+  | [x, y, z] :: rest => (toP3 rest).map ((x, y, z) :: ·)
+  | _ => none
+
+def mkGauss : List (P3 Float) → List Float → List Float → Option (List (Gauss Float))
+  | [], [], [] => some []
+  | c :: cs, k :: ks, a :: as => (mkGauss cs ks as).map (⟨c, k, a⟩ :: ·)
+  | _, _, _ => none
+
+/-- Parse `centres(mat) coeffs(vec) alphas(vec)`. -/
+def pGaussians (toks : List String) : Option (List (Gauss Float) × List String) := do
+  let (m, t1) ← pMat pFloat toks
+  let (ks, t2) ← pVec pFloat t1
+  let (as, t3) ← pVec pFloat t2
+  let gs ← mkGauss (← toP3 m) ks as
+  pure (gs, t3)
+
+/-- Decimal `(m, e)` = `m × 10^e` of the JSON file as the double Python's `float()` gives
+(up to the last-bit rounding of `Float.ofScientific`). -/
+def decToFloat (p : Int × Int) : Float :=
+  let v := if p.2 < 0 then Float.ofScientific p.1.natAbs true (-p.2).toNat
+           else Float.ofScientific p.1.natAbs false p.2.toNat
+  if p.1 < 0 then -v else v
+
+def scalarOp (f : Float → Float → Bool → Float) (rej : Float → Float → Bool)
+    (r a n : String) : Option String := do
+  let r ← pFloat r
+  let a ← pFloat a
+  let n ← pBool n
+  if rej r a then pure "value-error" else pure ("ok " ++ sFloat (f r a n))
 
 /-- Line-protocol handler of property C17: `C17.<op> args…` ↦ one answer line
 (`none` = malformed, answered `bad-op`). -/
 def handle : List String → Option String
+  | ["C17.thr"] => some ("ok " ++ sFloat (rZeroThreshold : Float))
+  | ["C17.s", r, a, n] => scalarOp coulombGaussianS coulombGaussianSRejects r a n
+  | ["C17.p", r, a, n] => scalarOp coulombGaussianP coulombGaussianPRejects r a n
+  | ["C17.pcorr", r, a, n] => scalarOp coulombGaussianPCorrected coulombGaussianPRejects r a n
+  | "C17.pot" :: n :: rest => do
+    let n ← pBool n
+    let (pm, t1) ← pMat pFloat rest
+    let pts ← toP3 pm
+    let (ss, t2) ← pGaussians t1
+    match t2 with
+    | ["0"] =>
+      match coulombPotential n pts ss [] with
+      | some v => pure ("ok " ++ sFloats v)
+      | none => pure "value-error"
+    | "1" :: t3 =>
+      let (ps, t4) ← pGaussians t3
+      if t4 ≠ [] then none else
+      match coulombPotential n pts ss ps with
+      | some v => pure ("ok " ++ sFloats v)
+      | none => pure "value-error"
+    | _ => none
+  | "C17.load" :: "sym" :: rest => do
+    let (cs, tl) ← pVec pNat rest
+    if tl ≠ [] then none else
+    if cs.any (· ≥ 128) then none else
+    match load Gen.CoulombParams.elements Gen.CoulombParams.table (.sym (cs.map Char.ofNat)) with
+    | some (c, a) => pure ("ok " ++ sFloats (c.map decToFloat) ++ " " ++ sFloats (a.map decToFloat))
+    | none => pure "value-error"
+  | ["C17.load", "num", n] => do
+    let n ← pInt n
+    match load Gen.CoulombParams.elements Gen.CoulombParams.table (.num n) with
+    | some (c, a) => pure ("ok " ++ sFloats (c.map decToFloat) ++ " " ++ sFloats (a.map decToFloat))
+    | none => pure "value-error"
   | _ => none
 
 end GridVerif.Driver.C17
